@@ -170,6 +170,26 @@ func runC16(c *ctx) {
 		law("$substringBefore(s, c) & (($contains(s, c)) ? c & $substringAfter(s, c) : \"\") = s", in, "law-exotic/beforeafter")
 		law("$length($uppercase(s)) >= 0 and $lowercase(s) = $lowercase($lowercase(s))", in, "law-exotic/case")
 	}
+	// the same functions applied through other forms of call: a composed function ($f ~> $g), a chain, a partial application,
+	// a function held in a variable, a lambda wrapper; the laws must hold in every form (in particular when a stage yields
+	// the empty string or zero)
+	for _, st := range append([]string{"", " ", "  ", "a", "é😀", " a ", ","}, randString(r, 4), randString(r, 6), exoticString(r)) {
+		in := map[string]interface{}{"s": st, "k": float64(utf8.RuneCountInString(st))}
+		for _, prog := range []string{
+			"($rt := $base64encode ~> $base64decode; $rt(s)) = s", "(s ~> ($base64encode ~> $base64decode)) = s", "(s ~> $base64encode ~> $base64decode) = s",
+			"($e := $base64encode; $d := $base64decode; $d($e(s))) = s", "function($x){$base64decode($base64encode($x))}(s) = s", "$base64decode(?)($base64encode(?)(s)) = s",
+			"($f := $trim ~> $length; $f(s)) = $length($trim(s))", "(s ~> $trim ~> $length) = $length($trim(s))", "($f := $uppercase ~> $lowercase ~> $length; $f(s)) = $length($lowercase($uppercase(s)))",
+			"($f := $trim ~> $pad(?, -4, \"é€\") ~> $length; $f(s)) = $length($pad($trim(s), -4, \"é€\"))", "($f := $substring(?, 0, 0) ~> $length; $f(s)) = 0",
+			"($f := $length ~> $string; $f(s)) = $string(k)", "($f := $substringBefore(?, \",\") ~> $uppercase; $f(s)) = $uppercase($substringBefore(s, \",\"))",
+			"($j := $split(?, \",\") ~> $join(?, \",\"); $j(s)) = s", "(s ~> $split(\",\") ~> $join(\",\")) = s", "$join($split(s, \",\"), \",\") = s",
+			"($c := $contains(?, \"a\") ~> $not; $c(s)) = $not($contains(s, \"a\"))", "($l := $length; $l(s)) = k", "(s ~> $length) = k", "(s ~> $length()) = k", "s.$length() = k",
+		} {
+			if st == "\ufffd" {
+				continue
+			}
+			law(prog, in, "law/other-forms-of-call")
+		}
+	}
 	// wrong argument kinds
 	for _, p := range []string{"$length(1)", "$substring(1, 1)", "$substring(\"a\", \"b\")", "$pad(\"a\", \"b\")", "$split(\"a\", 1)", "$join([1, 2])", "$join(\"a\")", "$replace(\"a\", \"\", \"b\")",
 		"$split(\"a\", \"a\", -1)", "$replace(\"a\", \"a\", \"b\", -1)", "$trim()", "$length()", "$uppercase(nothing)", "$substringBefore(\"a\")", "$contains(\"a\")", "$pad(\"a\")"} {
